@@ -229,7 +229,32 @@ def cargo_step():
     if rc != 0 and 'Cargo.lock' in out:
         shutil.copy(lock_src, lock_dst)
         rc, out = sh('cargo build --offline 2>&1', cwd=HARNESS, timeout=3000)
+    if rc != 0 and is_cache_damage(out):
+        # inconsistent incremental artefacts (e.g. the target directory was copied during a build): not a property of
+        # /repo. Clean the workspace-local crates and retry once.
+        sh('cargo clean --offline -p pv -p parol -p parol_runtime -p parol-macros 2>&1', cwd=HARNESS, timeout=600)
+        shutil.rmtree(os.path.join(VERIF, 'target', 'debug', 'incremental'), ignore_errors=True)
+        rc, out = sh('cargo build --offline 2>&1', cwd=HARNESS, timeout=3000)
     return rc == 0, out[-6000:]
+
+
+def is_cache_damage(out):
+    """Linker / metadata errors that come from a damaged build cache, not from the sources."""
+    return any(x in out for x in ('undefined hidden symbol', 'ld returned', 'rust-lld: error', 'failed to load', 'found invalid metadata',
+                                  'can\'t find crate', 'error: linking with', 'incompatible version of rustc', 'malformed'))
+
+
+def build_repo_bin(packages, target_sub):
+    """cargo build -p ... in /repo into /verif/target/<target_sub>, with one clean-and-retry on cache damage."""
+    env = dict(os.environ, CARGO_NET_OFFLINE='true', CARGO_TARGET_DIR=os.path.join(VERIF, 'target', target_sub), RUSTFLAGS='--cfg parol_verif')
+    cmd = 'cargo build --offline ' + ' '.join('-p ' + p for p in packages)
+    p = subprocess.run(cmd, shell=True, cwd=REPO, env=env, stdout=subprocess.PIPE, stderr=subprocess.STDOUT, text=True, timeout=3000)
+    if p.returncode != 0 and is_cache_damage(p.stdout):
+        subprocess.run('cargo clean --offline -p parol-ls -p parol -p parol_runtime -p parol-macros', shell=True, cwd=REPO, env=env,
+                       stdout=subprocess.PIPE, stderr=subprocess.STDOUT, text=True, timeout=600)
+        shutil.rmtree(os.path.join(VERIF, 'target', target_sub, 'debug', 'incremental'), ignore_errors=True)
+        p = subprocess.run(cmd, shell=True, cwd=REPO, env=env, stdout=subprocess.PIPE, stderr=subprocess.STDOUT, text=True, timeout=3000)
+    return p.returncode == 0, p.stdout
 
 
 # --------------------------------------------------------------------------------------------
@@ -396,10 +421,8 @@ def run_check(pid, spec, tier, seed, t0):
     okc, outc = cargo_step()
     if okc and spec.get('needs_parol_bin'):
         # the user-facing `parol` binary (e.g. its export subcommand), rebuilt from /repo's working tree
-        env = dict(os.environ, CARGO_NET_OFFLINE='true', CARGO_TARGET_DIR=os.path.join(VERIF, 'target', 'ls'), RUSTFLAGS='--cfg parol_verif')
-        p = subprocess.run('cargo build -p parol --bin parol --offline', shell=True, cwd=REPO, env=env,
-                           stdout=subprocess.PIPE, stderr=subprocess.STDOUT, text=True, timeout=3000)
-        okc, outc = p.returncode == 0, p.stdout[-6000:]
+        okc, outc = build_repo_bin(['parol'], 'ls')
+        outc = outc[-6000:]
     if not okc:
         # /repo no longer builds with the hooks: nothing can be evaluated
         path = write_replay(pid, 0, dict(broken='harness build against /repo failed', log=outc[-3000:]), kind='build')
